@@ -173,6 +173,7 @@ class World:
         self.probe = np.array([O.fl(x) for x in case['probe']])
         self.fp, self.meta_snap, self.state = [], [], []
         self.last_operand = None
+        self.last_source = None
         self.triggers = []      # (object, names of the hidden attributes written) of the current step
         self.hidden_tags = []
         self.followups = []
@@ -190,6 +191,8 @@ class World:
 
     # ---------------------------------------------------------------- bookkeeping
     def add_obj(self, ob, kind, bad):
+        if kind == 'source' and not bad:
+            self.last_source = len(self.objs)
         self.objs.append(ob)
         self.kinds.append(kind)
         self.bad.append(bad)
@@ -220,6 +223,9 @@ class World:
         return ('ok', v.tobytes(), extra), vals
 
     def sel(self, n, pred=None):
+        if n == 'src':
+            i = self.last_source
+            return i if i is not None and i not in self.dead and (pred is None or pred(i)) else None
         if n == 'last':
             # the operand the latest deriving call (operator, normalize, Observation, taper) was applied to
             i = self.last_operand
@@ -294,10 +300,12 @@ class World:
         kw = dict(points=self.arrs[xi], lookup_table=self.arrs[yi], keep_neg=st['keep_neg'])
         conc = {'do': 'new_empirical', 'kind': kind, 'x': xi, 'y': yi, 'keep_neg': st['keep_neg'], 'meta': None}
         zk = self.z_kwargs(st, kind, kw, conc)
-        if st.get('fill0'):
-            # no extrapolation: force_extrapolation() (directly, via normalize or Observation) is then observable
-            kw['fill_value'] = 0
-            conc['fill0'] = True
+        fill = st.get('fill', '0' if st.get('fill0') else None)
+        if fill is not None:
+            # explicit fill_value (np.nan: extrapolate; a number: no extrapolation, so that force_extrapolation() -
+            # directly, via normalize or Observation - is observable outside the table), whatever the end values are
+            kw['fill_value'] = np.nan if fill == 'nan' else O.fl(fill)
+            conc['fill'] = fill
         xc = self.wave_conv(xi)
         if xc is not None:
             conc['xconv'] = xc
@@ -323,7 +331,20 @@ class World:
         return conc, out, info
 
     def do_new_analytic(self, st):
-        d = {'prim': st['kind'], 'leaf': copy.deepcopy(st['leaf'])}
+        leaf = copy.deepcopy(st['leaf'])
+        if leaf.get('leaf') == 'box_rel':
+            # a box placed relative to the wavelength range of the newest source (public `waverange`): sticking out of
+            # it by half ('high', 'low': partial_notmost), by a sliver ('sliver': partial_most), disjoint, or inside
+            o = self.sel('src')
+            r = self.guarded(lambda: [float(x.value) for x in self.objs[o].waverange]) if o is not None else {}
+            if 'ok' not in r or not all(map(math.isfinite, r['ok'])) or r['ok'][0] <= 0 or r['ok'][1] <= r['ok'][0]:
+                return None, None, None
+            lo, hi = r['ok']
+            span = hi - lo
+            w = min(0.6 * span, 0.9 * lo)
+            x0 = {'high': hi, 'low': lo, 'sliver': hi - 0.496 * w, 'disjoint': hi + 2 * w, 'inside': 0.5 * (lo + hi)}[leaf['rel']]
+            leaf = {'leaf': 'box', 'amp': leaf['amp'], 'x0': q(x0), 'width': q(w), 'step': q(w / 8)}
+        d = {'prim': st['kind'], 'leaf': leaf}
         O.fill_ss(d, with_ss=False)
         conc = {'do': 'new_analytic', 'kind': st['kind'], 'leaf': d['leaf']}
         if self.z_kwargs(st, st['kind'], {}, conc):
@@ -1181,6 +1202,18 @@ def S(rng):
     return rng.randint(0, 10 ** 6)
 
 
+def gen_fill(rng):
+    """fill_value= of Empirical1D, independent of the table's end values: absent (45 %), 0, another number, NaN"""
+    r = rng.random()
+    return None if r < 0.45 else '0' if r < 0.75 else q(rng.choice([F(1, 2), F(3, 4), F(2)])) if r < 0.9 else 'nan'
+
+
+def gen_probe(rng):
+    """probe wavelengths inside and well OUTSIDE every table (tables span 900..9000 A, up to x8 when redshifted)"""
+    inside = O.sample_grid(rng, 4, 1000, 9000)
+    return qs(sorted(set(inside) | {O.dy(rng, 150, 800, 2), O.dy(rng, 9500, 14000, 2), O.dy(rng, 20000, 60000, 0), F(150000)}))
+
+
 def zinit(rng, st):
     """constructor keywords z=, z_type= on 45 % of the sources (non-zero z; both redshift behaviours)"""
     if st.get('kind', 'source') == 'source' and rng.random() < 0.45:
@@ -1205,11 +1238,11 @@ def gen_step(rng, k):
         if rng.random() < 0.3:
             return zinit(rng, {'do': 'new_analytic', 'kind': kind, 'leaf': gen_leaf(rng, kind)})
         return zinit(rng, {'do': 'new_empirical', 'kind': kind, 'x': S(rng), 'y': S(rng), 'keep_neg': rng.random() < 0.35,
-                           'meta': S(rng) if rng.random() < 0.5 else None, 'fill0': rng.random() < 0.4})
+                           'meta': S(rng) if rng.random() < 0.5 else None, 'fill': gen_fill(rng)})
     if r < 0.10:
         return zinit(rng, {'do': 'new_empirical', 'kind': rng.choice(['source', 'source', 'bandpass', 'bandpass', 'reddening', 'reddening']),
                            'x': S(rng), 'y': S(rng), 'keep_neg': rng.random() < 0.35,
-                           'meta': S(rng) if rng.random() < 0.5 else None, 'fill0': rng.random() < 0.4})
+                           'meta': S(rng) if rng.random() < 0.5 else None, 'fill': gen_fill(rng)})
     if r < 0.19:
         kind = rng.choice(['source', 'bandpass', 'bandpass'])
         return zinit(rng, {'do': 'new_analytic', 'kind': kind, 'leaf': gen_leaf(rng, kind)})
@@ -1273,6 +1306,19 @@ def follow_ups(rng, st):
                                {'do': 'integrate', 'o': -1, 'w': S(rng), 'itype': 'trapezoid'},
                                {'do': 'query', 'o': -1, 'w': S(rng), 'm': 'avgwave'},
                                {'do': 'arith', 'op': 'mul', 'a': -1, 'b': {'scalar': 'float', 'v': '2'}}]))
+    if st['do'] == 'new_empirical' and st['kind'] == 'source' and rng.random() < 0.45:
+        # a band placed relative to this source's range, then calls that the library must refuse (or accept) without
+        # touching the source: normalize with and without force, Observation with every force option
+        rel = rng.choice(['high', 'high', 'low', 'low', 'sliver', 'disjoint', 'inside'])
+        out.append({'do': 'new_analytic', 'kind': 'bandpass',
+                    'leaf': {'leaf': 'box_rel', 'rel': rel, 'amp': q(O.dy(rng, 0.25, 1, 2))}})
+        for _ in range(rng.choice([1, 2])):
+            if rng.random() < 0.55:
+                out.append({'do': 'normalize', 'o': 'src', 'band': -1, 'force': rng.random() < 0.3, 'wild': False,
+                            'val': rng.choice(['flam', 'photlam', 'number'])})
+            else:
+                out.append({'do': 'observation', 'src': 'src', 'band': -1, 'wild': False, 'binset': None,
+                            'force': rng.choice(['none', 'none', 'none', 'extrap', 'taper', 'bogus'])})
     if st['do'] == 'new_empirical' and st['kind'] == 'reddening' and rng.random() < 0.7:
         # queries on the new law: extinction curves on one or two grids
         for _ in range(rng.choice([1, 2])):
@@ -1320,7 +1366,7 @@ def gen_case(rng, K, maxlen):
         steps.append(st)
         steps.extend(follow_ups(rng, st))
     return {'op': 'heap_history', 'const': K, 'arrays': arrays, 'dicts': dicts,
-            'probe': qs(O.sample_grid(rng, 6, 300, 12000)), 'steps': steps[:maxlen]}
+            'probe': gen_probe(rng), 'steps': steps[:maxlen]}
 
 
 # ------------------------------------------------------------------ driver
@@ -1333,6 +1379,10 @@ def run_histories(rep, cases):
         tags = ['len:%02d' % (10 * (len(done) // 10))]
         for s in done:
             tags.append('call:' + s['conc']['do'])
+            if s['conc']['do'] in ('normalize', 'observation'):
+                tags.append('%s:%s:%s' % (s['conc']['do'], s['conc']['stat'], s['rec']['out'].get('err', 'ok')))
+            if 'fill' in s['conc']:
+                tags.append('fill_value:' + ('nan' if s['conc']['fill'] == 'nan' else '0' if s['conc']['fill'] == '0' else 'number'))
             if s['conc']['do'] == 'query':
                 tags.append('query:' + s['conc'].get('m', '?'))
             tags.append('outcome:' + ('raised' if 'err' in s['rec']['out'] else 'returned'))
